@@ -466,7 +466,11 @@ def new_dict(it, cls: str = "dict", items: list | None = None) -> z3.ExprRef:
 def check_key(it, k) -> None:
     """Dict keys are compared as values (identity for objects).  An object key whose class defines its own __eq__ / __hash__
     (two distinct objects may then be the *same* key) is outside this model: the path is left undecided, never proved."""
-    if it.kind(k) == "ref":
+    kind = it.kind(k)
+    if kind in ("bool", "float") or (kind is None and not it.st.entails(z3.Not(z3.Or(V.is_bool(k), V.is_float(k))))):
+        # 1, True and 1.0 are one key in CPython and three values here (selfcheck `int_bool_keys`)
+        raise Unsupported("dict key that is (or may be) a bool or a float: equal to an int key in CPython, distinct in this model")
+    if kind == "ref":
         c = it.st.class_id_of(k)
         info = it.ct.info.get(c) if c is not None else None
         if info is not None and (info.find_method("__eq__") is not None or info.find_method("__hash__") is not None):
@@ -622,6 +626,7 @@ def getitem(it, obj, idx, node=None) -> z3.ExprRef:
         st.instantiate_at(st.simp(lo + eff))
         return st.simp(z3.Select(arr, lo + eff))
     if cn in ("dict", "OrderedDict", "mappingproxy"):
+        check_key(it, idx)
         p = dict_parts(it, obj)
         if not st.decide(z3.Select(p["has"], idx), f"getitem@{it.pos(node)}:present"):
             raise PyRaise(it.new_exc("KeyError"), "missing key")
@@ -643,6 +648,7 @@ def delitem(it, obj, idx, node=None) -> None:
     cn = _cname(it, obj)
     if cn in ("dict", "OrderedDict"):
         used(f"{cn}.__delitem__")
+        check_key(it, idx)
         p = dict_parts(it, obj)
         if not st.decide(z3.Select(p["has"], idx), f"delitem@{it.pos(node)}:present"):
             raise PyRaise(it.new_exc("KeyError"), "missing key")
@@ -1103,6 +1109,7 @@ def _move_to_end(it, lv, ca, node):
     last = ca.arg(1, "last")
     if last is not None and not z3.is_true(st.simp(it.truthy(last))):
         raise Unsupported("move_to_end(last=False)")
+    check_key(it, k)
     p = dict_parts(it, d)
     if not st.decide(z3.Select(p["has"], k), f"move_to_end@{it.pos(node)}:present"):
         raise PyRaise(it.new_exc("KeyError"), "move_to_end of a missing key")
@@ -1168,6 +1175,8 @@ def _make_key(it, lv, ca, node):
         k = make_key(rest, kwds)
     else:
         k = make_key_untyped(rest, kwds)
+    # (the result is a _HashedSeq, or with typed=False a bare int / str: never a bool or a float)
+    it.st.assume(z3.Not(z3.Or(V.is_bool(k), V.is_float(k))))
     for x in reversed(lead):
         k = key_cons(x, k)
     return k
@@ -1880,6 +1889,7 @@ def _dict_setdefault(it, lv, ca, node):
     st = it.st
     d, k = lv.bound, ca.pos[0]
     default = ca.pos[1] if len(ca.pos) > 1 else V.VNone
+    check_key(it, k)
     p = dict_parts(it, d)
     st.instantiate_at(k)
     if st.decide(z3.Select(p["has"], k), f"dict.setdefault@{it.pos(node)}:present"):
@@ -1892,6 +1902,7 @@ def _dict_setdefault(it, lv, ca, node):
 def _dict_pop(it, lv, ca, node):
     st = it.st
     d, k = lv.bound, ca.pos[0]
+    check_key(it, k)
     p = dict_parts(it, d)
     st.instantiate_at(k)
     if st.decide(z3.Select(p["has"], k), f"dict.pop@{it.pos(node)}:present"):
